@@ -54,7 +54,7 @@ func (f *Last) Call(s *slip.Scope, args slip.List, depth int) (result slip.Objec
 	case slip.List:
 		n := 1
 		if 1 < len(args) {
-			if i, ok := args[1].(slip.Integer); ok && 0 <= n {
+			if i, ok := args[1].(slip.Integer); ok && i.IsInt64() && 0 <= i.Int64() {
 				n = int(i.Int64())
 			} else {
 				slip.TypePanic(s, depth, "n", args[1], "non-negative integer")
